@@ -36,6 +36,9 @@ def resize_psf(psf, input_pixel_scale, output_pixel_scale, *, order=3):
         The resampled/interpolated 2D data array.
     """
     ratio = input_pixel_scale / output_pixel_scale
+    # interpolate in floating point (zoom returns the input dtype, so
+    # an integer array would be rounded)
+    psf = np.asarray(psf, dtype=float)
     return zoom(psf, ratio, order=order) / ratio**2
 
 
@@ -76,9 +79,10 @@ def create_matching_kernel(source_psf, target_psf, *, window=None):
         The matching kernel to go from ``source_psf`` to ``target_psf``.
         The output matching kernel is normalized such that it sums to 1.
     """
-    # inputs are copied so that they are not changed when normalizing
-    source_psf = np.copy(np.asanyarray(source_psf))
-    target_psf = np.copy(np.asanyarray(target_psf))
+    # inputs are copied (as float, so that integer arrays can be
+    # normalized) so that they are not changed when normalizing
+    source_psf = np.array(source_psf, dtype=float)
+    target_psf = np.array(target_psf, dtype=float)
 
     if source_psf.shape != target_psf.shape:
         raise ValueError('source_psf and target_psf must have the same shape '
